@@ -4,7 +4,7 @@
     StdSV.f = the definition of std::string_view::f in [string.view] (coq/C18/StdSV.v).
     [size h < npos] / [size h <= npos]: the view fits size_type. Position/count arguments range over all of N. *)
 From Coq Require Import List NArith ZArith Bool.
-From TLXV Require Import C18.Defs C18.StdSV C18.Lemmas C18.SV C18.AlgoLemmas C18.SVProofs C18.FindProofs C18.Refute.
+From TLXV Require Import C18.Defs C18.StdSV C18.Lemmas C18.SV C18.SVDims C18.AlgoLemmas C18.SVProofs C18.FindProofs C18.Refute C18.Window.
 Import ListNotations.
 Open Scope N_scope.
 
@@ -154,3 +154,43 @@ Theorem C18_compare3_shipped_refuted :
     SV.compare3_shipped h pos1 n1 x = Terminate /\ StdSV.compare3 h pos1 n1 x = OutOfRange.
 Proof. exact compare3_shipped_refuted. Qed.
 Print Assumptions C18_compare3_shipped_refuted.
+
+(* ---- locality: a query depends on the view's size and on a short window of its bytes. This is what lets the
+        correspondence run evaluate the model on views of 2^31 .. 2^32+2^31 bytes (size as a number, window as a list). *)
+Theorem C18_compare_window : forall a b,
+  SV.compare a b = SV.compare (takeN (size b + 1) a) b /\ SV.compare b a = SV.compare b (takeN (size b + 1) a).
+Proof. exact (fun a b => conj (compare_window a b) (compare_window_r a b)). Qed.
+Print Assumptions C18_compare_window.
+
+Theorem C18_operators_window : forall a b,
+  let a' := takeN (size b + 1) a in
+  (SV.op_eq a b = SV.op_eq a' b /\ SV.op_ne a b = SV.op_ne a' b /\ SV.op_lt a b = SV.op_lt a' b /\
+   SV.op_gt a b = SV.op_gt a' b /\ SV.op_le a b = SV.op_le a' b /\ SV.op_ge a b = SV.op_ge a' b) /\
+  (SV.op_eq b a = SV.op_eq b a' /\ SV.op_ne b a = SV.op_ne b a' /\ SV.op_lt b a = SV.op_lt b a' /\
+   SV.op_gt b a = SV.op_gt b a' /\ SV.op_le b a = SV.op_le b a' /\ SV.op_ge b a = SV.op_ge b a').
+Proof. exact operators_window. Qed.
+Print Assumptions C18_operators_window.
+
+Theorem C18_substr_compare_factor : forall h pos n x,
+  SV.substr h pos n = match substr_dims (size h) pos n with
+                      | Ok (o, l) => Ok (window h o l) | OutOfRange => OutOfRange | Terminate => Terminate end /\
+  SV.compare3 h pos n x = match substr_dims (size h) pos n with
+                          | Ok (o, l) => Ok (SV.compare (window h o l) x) | _ => OutOfRange end.
+Proof. exact (fun h pos n x => conj (substr_factor h pos n) (compare3_factor h pos n x)). Qed.
+Print Assumptions C18_substr_compare_factor.
+
+Theorem C18_starts_ends_with_window : forall h x, size x <= size h ->
+  SV.starts_with h x = SV.starts_with (window h 0 (size x)) x /\
+  SV.ends_with h x = SV.ends_with (window h (size h - size x) (size x)) x.
+Proof. exact (fun h x H => conj (starts_with_window h x H) (ends_with_window h x H)). Qed.
+Print Assumptions C18_starts_ends_with_window.
+
+Theorem C18_find_shift : forall h s pos o, size h < npos -> o <= pos -> o <= size h ->
+  SV.find h s pos = (let r := SV.find (dropN o h) s (pos - o) in if r =? npos then npos else o + r).
+Proof. exact find_shift. Qed.
+Print Assumptions C18_find_shift.
+
+Theorem C18_rfind_shift : forall h s pos o r, size h < npos -> o <= pos -> o <= size h ->
+  SV.rfind (dropN o h) s (pos - o) = r -> r <> npos -> SV.rfind h s pos = o + r.
+Proof. exact rfind_shift. Qed.
+Print Assumptions C18_rfind_shift.
